@@ -44,10 +44,11 @@ fn main() {
     let docs = [
         json!({"a": [1, 2, {"b": "x", "c": [true, null]}], "b": {"a": 1.5, "list": ["a", "b"]}, "lim": 1}),
         json!([{"a": 1, "b": "ab"}, {"a": 2}, {"a": 1.0, "b": "xay"}, [1, [2, [3]]]]),
+        json!({"names": ["d", "a", "c", "b", "z", "k", "e", "aa", "ab"], "items": [{"b": "a"}, {"b": "q"}, {"b": "ab"}], "lim": 0, "long": [0, 1, 2, 3, 4, 5, 6, 7, 8, 9]}),
     ];
-    let plain = ["$..a", "$.a[?@.b == 'x'].c[*]", "$[?@.a >= 1].b", "$..[?@ > $.lim]", "$[0,2]['a','b']", "$..*", "$.b.list[::-1]", "$[?count(@.*) > 1]", "$[?length(@.b) == 2]", "$.a[-1].c[?@ == null]"];
+    let plain = ["$..a", "$.a[?@.b == 'x'].c[*]", "$[?@.a >= 1].b", "$..[?@ > $.lim]", "$[0,2]['a','b']", "$..*", "$.b.list[::-1]", "$[?count(@.*) > 1]", "$[?length(@.b) == 2]", "$.a[-1].c[?@ == null]", "$.items[?in(@.b, $.names)]", "$.items[?nin(@.b, $.names)].b", "$.long[-1]", "$.long[?@ > $.lim]", "$..[?subset_of(@, $.names)]"];
     let regex = ["$..[?match(@, 'a.*')]", "$..[?search(@.b, 'a')]"];
-    let doc = Arc::new(docs[(splitmix(&mut seed) % 2) as usize].clone());
+    let doc = Arc::new(docs[(splitmix(&mut seed) % 3) as usize].clone());
     let n_q = 2;
     let mut qs: Vec<(String, Arc<JpQuery>)> = vec![];
     for i in 0..n_q {
